@@ -134,6 +134,19 @@ Theorem C06_K4_refuted : untypable_witness k4_toks has_chain_early_else = true.
 Proof. exact K4_untypable. Qed.
 Print Assumptions C06_K4_refuted.
 
+(* inside the class the property excludes (bare `;;`): an else-chain whose final
+   else is `;;` -- the chain's join entry is the first arm's own entry, so an arm
+   that runs is re-entered forever, one operand deeper at every turn (known
+   finding C06-K5; same root cause as C05-K1 / C20-K1: the rule that skips a
+   repeated EndExpression) *)
+Theorem C06_K5_refuted :
+  k5_class = true /\
+  pjump k5_prog 2 = pjump k5_prog 1 /\ pjump k5_prog 1 = Some 3 /\
+  match infer_depths k5_prog with None => true | Some _ => false end = true /\
+  path_ok k5_prog k5_path = true.
+Proof. exact K5_loop. Qed.
+Print Assumptions C06_K5_refuted.
+
 (* non-vacuity: a reapply loop inside an applied expression with a conditional
    and an else is accepted, outside every class, and typed; its loop head is
    typed (0, 0) *)
